@@ -4,6 +4,7 @@
 package gqlfix
 
 import (
+	"bytes"
 	"context"
 	"encoding/json"
 	"fmt"
@@ -335,6 +336,15 @@ func (LIFO) Run(resolver graphql.UnitResolver, units ...*graphql.WorkUnit) {
 
 // Exec parses, validates and executes a query; the result is normalised through JSON.
 func Exec(ctx context.Context, schema *graphql.Schema, sched graphql.WorkScheduler, query string, vars map[string]interface{}) (res interface{}, err error) {
+	return execWith(ctx, schema, sched, query, vars, Norm)
+}
+
+// ExecExact is Exec with numbers kept exact (json.Number).
+func ExecExact(ctx context.Context, schema *graphql.Schema, sched graphql.WorkScheduler, query string, vars map[string]interface{}) (res interface{}, err error) {
+	return execWith(ctx, schema, sched, query, vars, NormExact)
+}
+
+func execWith(ctx context.Context, schema *graphql.Schema, sched graphql.WorkScheduler, query string, vars map[string]interface{}, norm func(interface{}) (interface{}, error)) (res interface{}, err error) {
 	defer func() {
 		if p := recover(); p != nil {
 			res, err = nil, fmt.Errorf("PANIC: %v", p)
@@ -355,7 +365,7 @@ func Exec(ctx context.Context, schema *graphql.Schema, sched graphql.WorkSchedul
 	if err != nil {
 		return nil, fmt.Errorf("execute: %w", err)
 	}
-	return Norm(res)
+	return norm(res)
 }
 
 // ExecReactive is Exec inside a reactive.Rerunner (where Expensive fields go through reactive.Cache).
@@ -384,6 +394,21 @@ func Norm(v interface{}) (interface{}, error) {
 	}
 	var out interface{}
 	if err := json.Unmarshal(b, &out); err != nil {
+		return nil, err
+	}
+	return out, nil
+}
+
+// NormExact is Norm with numbers kept as json.Number (exact beyond the float64 range).
+func NormExact(v interface{}) (interface{}, error) {
+	b, err := json.Marshal(v)
+	if err != nil {
+		return nil, fmt.Errorf("marshal: %w", err)
+	}
+	var out interface{}
+	dec := json.NewDecoder(bytes.NewReader(b))
+	dec.UseNumber()
+	if err := dec.Decode(&out); err != nil {
 		return nil, err
 	}
 	return out, nil
